@@ -168,10 +168,13 @@ class ScriptSim(mosaik_api_v3.Simulator):
             # on a cache miss mosaik forwards the request to the other simulator's get_data() (outside
             # the scheduler's own step/get_data cycle): that call is answered at once and is no scheduler event
             self.ctl.passthrough = f"S{req[1]}"
+            self.ctl.passthrough_log = []
             try:
-                yield self.mosaik.get_data(req[2])
+                res = yield self.mosaik.get_data(req[2])
             finally:
                 self.ctl.passthrough = None
+            # what the requester was handed, and what the other simulator answered to the forwarded request (if any)
+            self.ctl.emit(("get_data_res", self.sid, req[1], copy.deepcopy(req[2]), copy.deepcopy(res), list(self.ctl.passthrough_log)))
         elif req[0] == "set_event":
             self.ctl.emit(("set_event", self.sid, req[1]))
             yield self.mosaik.set_event(req[1])
@@ -185,6 +188,7 @@ class ScriptSim(mosaik_api_v3.Simulator):
                     d.setdefault(eid, {})[a] = beh["out"][(eid, a)]
         if getattr(self.ctl, "passthrough", None) == self.sid:
             self.ctl.passthrough = None
+            self.ctl.passthrough_log.append((copy.deepcopy(outputs), copy.deepcopy(d)))
             return d
         if "out_time" in beh:
             d["time"] = beh["out_time"]
